@@ -666,7 +666,6 @@ func dependsOnNoPhi(v, ev ssa.Value) bool {
 	return false
 }
 
-
 // marshalsLiveConfig: the message handed to proto.Marshal is the in-memory configuration - `a.config` itself, or a
 // parameter of the save function to which every caller passes its `.config`.
 func marshalsLiveConfig(f *ssa.Function, ms *ssa.Call) bool {
